@@ -136,3 +136,44 @@ def sites_all_gated(prog, fn, pred, depth=0, seen=None):
         if not ok:
             bad += sub if sub and sub != [(f, None)] else [(f, n)]
     return (not bad), bad
+
+
+def modified_gate(prog, fn, atoms):
+    """(ok, extra): ok if the atoms contain `<..>.status == Status::Modified` directly or through a crate
+    predicate whose whole body is that comparison; extra lists what a predicate requires besides"""
+    if has_eq_gate(atoms, ".status", "Status::Modified") or has_variant_gate(atoms, "Status::Modified", ".status"):
+        return True, []
+    for a in atoms:
+        if a[0] != "call" or a[4] is not True:
+            continue
+        h = prog.resolve_local(a[5]) if isinstance(a[5], dict) else None
+        if h is None or h.body is None:
+            continue
+        from .prov import return_exprs
+
+        rs = return_exprs(h.body)
+        if len(rs) != 1:
+            continue
+        conj = []
+
+        def split(e):
+            e = hir.peel(e)
+            if e.get("k") == "Binary" and e["op"] == "And":
+                split(e["l"])
+                split(e["r"])
+            else:
+                conj.append(e)
+
+        split(rs[0])
+        is_mod = []
+        extra = []
+        for c in conj:
+            sides = [operand(h, c["l"]), operand(h, c["r"])] if c.get("k") == "Binary" and c["op"] == "Eq" else []
+            ss = [_strip_ids(x) for x in sides if isinstance(x, str)]
+            if any(x.endswith(".status") for x in ss) and any(x.endswith("Status::Modified") for x in ss):
+                is_mod.append(c)
+            else:
+                extra.append(hir.describe(c)[:80])
+        if is_mod:
+            return True, ["%s() also requires %s" % (h.name, x) for x in extra]
+    return False, []
